@@ -30,7 +30,7 @@ type c05Params struct {
 	Hook       int
 }
 
-var c05Kinds = []string{"random", "typed", "mut-open", "mut-update", "mut-notif", "mut-keepalive", "flood", "half-close", "open-edge", "lengths"}
+var c05Kinds = []string{"random", "typed", "mut-open", "mut-update", "mut-notif", "mut-keepalive", "flood", "half-close", "open-edge", "lengths", "pair"}
 
 func hostileBytes(r *rand.Rand, kind string, rc *hz.RConn, ras uint32) []byte {
 	rb := func(n int) []byte {
@@ -79,6 +79,29 @@ func hostileBytes(r *rand.Rand, kind string, rc *hz.RConn, ras uint32) []byte {
 			}
 		}
 		return out
+	case "pair": // a message that ends the connection, immediately followed by one that cannot be decoded
+		var a, b []byte
+		switch r.IntN(4) {
+		case 0:
+			a = wire.Notification(6, 0, nil)
+		case 1:
+			a = wire.Notification(uint8(1+r.IntN(5)), 0, nil)
+		case 2:
+			a = wire.Msg(wire.TypeOpen, rc.StdOpen(ras, 90, remoteIDu).Body())
+		default:
+			a = wire.Keepalive()
+		}
+		switch r.IntN(4) {
+		case 0:
+			b = wire.Msg(5, rb(4))
+		case 1:
+			b = wire.Msg(wire.TypeOpen, rb(r.IntN(9)))
+		case 2:
+			b = wire.Msg(wire.TypeNotification, rb(r.IntN(2)))
+		default:
+			b = wire.Msg(uint8(6+r.IntN(250)), rb(r.IntN(30)))
+		}
+		return append(a, b...)
 	case "half-close":
 		m := wire.Update(rb(100))
 		return m[:1+r.IntN(len(m)-1)]
